@@ -1,29 +1,38 @@
 #!/bin/bash
-# Runs every confirmed seeded defect against the check of its own property (quick tier) and
-# records the outcome in seeded/<id>/meta.json (detected_by) and seeded/MATRIX.tsv.
+# tools/seed_matrix.sh [parallelism]
+# Runs every confirmed seeded defect against the check of its own property (quick tier) and records the
+# outcome in seeded/<id>/meta.json (detected_by) and seeded/MATRIX.tsv.  Each seed gets a scratch git
+# worktree of /repo with the patch applied; the check runs against it (PYTHONPATH=<worktree>/src) with
+# its evidence/replays redirected to a scratch directory, and both are removed afterwards.
+# (Equivalent, one at a time, on /repo itself: tools/try_seed.sh <patch> <Cxx>.)
 cd /verif
-out=seeded/MATRIX.tsv
-echo -e "seed\tproperty\tcheck_exit\tviolation_keys" > $out
-for d in seeded/C*-m*; do
-  id=$(basename $d); prop=${id%%-*}
+par=${1:-4}
+one() {
+  d=$1; id=$(basename $d); prop=${id%%-*}
   patch=/verif/$d/patch.diff; [ -f /verif/$d/patch_rebased.diff ] && patch=/verif/$d/patch_rebased.diff
-  if ! git -C /repo apply --check $patch 2>/dev/null; then
-    echo -e "$id\t$prop\tn/a\tpatch does not apply to the fixed tree (see meta.json note)" >> $out; continue
-  fi
-  git -C /repo apply $patch
-  log=$(mktemp)
-  timeout 1500 ./check $prop --tier quick > $log 2>&1; rc=$?
-  git -C /repo checkout -- .
-  keys=$(grep -A1 "^VIOLATION" $log | grep "key=" | sed 's/.*key=\([^ ]*\).*/\1/' | sort -u | head -4 | tr '\n' ' ')
-  echo -e "$id\t$prop\t$rc\t$keys" >> $out
-  python3 - "$d" "$prop" "$rc" "$keys" <<'PY'
+  wt=/tmp/mx_$id; outd=/tmp/mx_out_$id
+  rm -rf $wt $outd; git -C /repo worktree add -q $wt HEAD 2>/dev/null || { echo -e "$id\t$prop\tn/a\tworktree failed"; return; }
+  if ! git -C $wt apply $patch 2>/dev/null; then
+    echo -e "$id\t$prop\tn/a\tpatch does not apply to the fixed tree (see meta.json note)"
+  else
+    log=$outd.log
+    PYTHONPATH=$wt/src SYMX_OUT_DIR=$outd timeout 2400 ./check $prop --tier quick > $log 2>&1; rc=$?
+    keys=$(grep -A1 "^VIOLATION" $log | grep "key=" | sed 's/.*key=\([^ ]*\).*/\1/' | sort -u | head -4 | tr '\n' ' ')
+    echo -e "$id\t$prop\t$rc\t$keys"
+    python3 - "$d" "$prop" "$rc" "$keys" <<'PY'
 import json,sys
 d,prop,rc,keys=sys.argv[1:5]
 p=d+'/meta.json'; m=json.load(open(p))
 m['detected_by']={"check":f"./check {prop} --tier quick","exit":int(rc),"violation_keys":keys.split(),"detected":rc=="1"}
 json.dump(m,open(p,'w'),indent=1)
 PY
-  rm -f $log
-done
-rm -rf replays
+    rm -f $log
+  fi
+  git -C /repo worktree remove --force $wt 2>/dev/null; rm -rf $wt $outd
+}
+export -f one
+out=seeded/MATRIX.tsv
+ls -d seeded/C*-[mn]* | xargs -P $par -I{} bash -c 'one {}' > /tmp/mx_rows.tsv
+git -C /repo worktree prune
+( echo -e "seed\tproperty\tcheck_exit\tviolation_keys"; sort /tmp/mx_rows.tsv ) > $out; rm -f /tmp/mx_rows.tsv
 cat $out
